@@ -16,7 +16,7 @@ ID = "C16"
 TITLE = "chosen neighbourhood size is the best candidate"
 RULE = ("scripted: for max_k in 1..4 (KNN) / every 1 <= min_k <= max_k <= 4 (unsupervised) on real "
         "5-sample training sets, EVERY sequence of criterion values over {0, 0.5, 1} (accuracy) / "
-        "{0, 0.5, 1, 2} (cut) is served through the intercepted criterion; natural: every point "
+        "{0, 1e-21, 0.5, 1} (cut) is served through the intercepted criterion; natural: every point "
         "sequence over {0..3} (n=3,4; thorough 5) x validation sets x k ranges with the real "
         "criterion recorded; oracle: KNN best_k = smallest argmax over 1..max_k, all candidates "
         "evaluated once in order; unsupervised best_k = smallest argmin over the evaluated "
@@ -24,7 +24,9 @@ RULE = ("scripted: for max_k in 1..4 (KNN) / every 1 <= min_k <= max_k <= 4 (uns
         "create_arcs / calculate_pdf / clustering calls use best_k. Non-trivial = the criterion "
         "sequence has a tie for the best value or the best is not the first candidate")
 ASSUMPTIONS = [
-    "criterion alphabets {0, 0.5, 1} / {0, 0.5, 1, 2}; max_k <= 4",
+    "criterion alphabets {0, 0.5, 1} / {0, 1e-21, 0.5, 1}; max_k <= 4",
+    "every program is also run on an instance previously fitted on the preceding program "
+    "(one-step instance history)",
     "the criterion is intercepted at opfython.math.general.opf_accuracy and "
     "UnsupervisedOPF._normalized_cut (module / class attributes looked up at call time)",
 ]
@@ -34,7 +36,7 @@ TRAIN2 = {"X": [[0.0, 0.0], [1.0, 0.0], [0.0, 1.0], [5.0, 5.0], [5.0, 6.0]], "la
 
 def bounds(tier):
     return {"scripted_knn": "max_k 1..4, alphabet {0,0.5,1}: 120 sequences x 2 training sets",
-            "scripted_unsupervised": "all 1<=min_k<=max_k<=4, alphabet {0,0.5,1,2} x 2 training sets",
+            "scripted_unsupervised": "all 1<=min_k<=max_k<=4, alphabet {0,1e-21,0.5,1} x 2 training sets",
             "natural": "P(3..4%s,{0..3}) x validation sets x all k ranges" % (",5" if tier == "thorough" else "")}
 
 
@@ -53,9 +55,10 @@ def warm():
 
 
 # --------------------------------------------------------------------------
-def execute(prog):
+def execute(prog, model=None):
     """Runs fit with the criterion scripted (prog['script'] not None) or
-    recorded.  Returns dict(values, evaluated, best_k, calls)."""
+    recorded.  Returns dict(values, evaluated, best_k, calls).  With model=<object>
+    the fit runs on that already used instance."""
     import opfython.math.general as g
     from opfython.subgraphs import KNNSubgraph
     from opfython.models import UnsupervisedOPF, KNNSupervisedOPF
@@ -106,7 +109,7 @@ def execute(prog):
     with ctx, seams.patched(cls, "_clustering", clustering), \
             seams.record_calls(KNNSubgraph, "create_arcs", log, None, "create_arcs"), \
             seams.record_calls(KNNSubgraph, "calculate_pdf", log, None, "calculate_pdf"):
-        m = K.fit_program(prog)
+        m = K.fit_program(prog, model)
     for e in log:
         calls.append((e["call"], int(e["args"][0])))
     if not unsup:
@@ -162,7 +165,16 @@ def judge(prog, ex):
 
 def run_case(prog, res=None):
     try:
-        ex = execute(prog)
+        model = None
+        if prog.get("previous") is not None:
+            # one-step history: the same instance was fitted on another program before
+            try:
+                model = execute(prog["previous"])["model"]
+            except Horizon:
+                raise
+            except Exception:
+                model = None
+        ex = execute(prog, model)
     except Horizon:
         raise
     except seams.ScriptExhausted as se:
@@ -191,6 +203,20 @@ def viol(prog, prob, sym):
 
 
 def programs(shard, seed):
+    """Every program is run twice: on a fresh instance, and on an instance that was
+    fitted on the preceding program of the enumeration (same model kind)."""
+    prev = {}
+    for p in _programs(shard, seed):
+        yield p
+        q = prev.get(p["model"])
+        if q is not None:
+            r = dict(p)
+            r["previous"] = q
+            yield r
+        prev[p["model"]] = p
+
+
+def _programs(shard, seed):
     kind = shard[0]
     sc = [1.0, 0.5, 2.0, 3.0][seed % 4] if seed else 1.0
     if kind == "sk":
@@ -205,7 +231,7 @@ def programs(shard, seed):
         _, ti, mn, mx = shard
         T = [TRAIN, TRAIN2][ti]
         X = (np.array(T["X"]) * sc).tolist()
-        for script in itertools.product([0.0, 0.5, 1.0, 2.0], repeat=mx - mn + 1):
+        for script in itertools.product([0.0, 1e-21, 0.5, 1.0], repeat=mx - mn + 1):
             yield {"model": "UnsupervisedOPF", "mode": "features", "X": X, "metric": "euclidean",
                    "labels": T["labels"], "min_k": mn, "max_k": mx, "script": list(script)}
     else:
